@@ -202,7 +202,14 @@ def check_verify(run, ix):
         op = type(c.ops[0])
         lhs, rhs = c.left, c.comparators[0]
         # normalise to  residual > tol
-        form = {(ast.Gt, False): 'lr', (ast.Lt, False): 'rl', (ast.LtE, True): 'lr', (ast.GtE, True): 'rl'}.get((op, neg))
+        if (op, neg) in ((ast.Gt, False), (ast.Lt, False)):
+            # residual > tol is False for a nan residual (f(x) = nan, x = nan): nan would be returned
+            # as a verified root.  The gate must raise unless residual <= tol HOLDS.
+            run.fail(F('R-R1', OPT, 'findroot', gate, 'the verification raises only when `residual > tol` is true: a '
+                       'nan residual (x*log(x) at 0, a nan iterate) compares false and the value is returned as a '
+                       'verified root; the test must be `not residual <= tol`'))
+            continue
+        form = {(ast.LtE, True): 'lr', (ast.GtE, True): 'rl'}.get((op, neg))
         if form is None:
             run.fail(F('R-R1', OPT, 'findroot', gate, 'the verification does not raise exactly when the '
                        'residual exceeds the tolerance (operator %s%s)' % ('not ' if neg else '', op.__name__)))
@@ -424,6 +431,13 @@ def check_polyroots(run, ix):
         v = c.value
         ok = (isinstance(v, ast.ListComp) and norm(v.generators[0].iter) in ('xrange(deg)', 'range(deg)')
               and not v.generators[0].ifs) or norm(v) == '[None] * deg'
+        if not ok and isinstance(v, ast.ListComp) and len(v.generators) == 1 and not v.generators[0].ifs and \
+                isinstance(v.generators[0].iter, ast.Name) and \
+                norm(v.elt) == 'roots[%s]' % norm(v.generators[0].target):
+            # a permutation: roots = [roots[i] for i in order], order = sorted(range(deg), key=...)
+            od = [x for x in _walk_own(fn) if isinstance(x, ast.Assign) and norm(x.targets[0]) == v.generators[0].iter.id]
+            ok = len(od) == 1 and isinstance(od[0].value, ast.Call) and norm(od[0].value.func) == 'sorted' and \
+                norm(od[0].value.args[0]) in ('range(deg)', 'xrange(deg)')
         if ok:
             run.ok('R-P1', 'roots created with deg entries: %s' % norm(c, 70))
         else:
@@ -499,6 +513,136 @@ def check_polyroots(run, ix):
                    line=fn.lineno))
 
 
+# --------------------------------------------------------------------------- R-R4 / R-R5 / R-P3 / R-M1
+def check_keyword_lookups(run, ix):
+    """R-R4.  The solvers take optional callbacks from **kwargs with the idiom
+           if not 'd2f' in kwargs: <default>  else: d2f = kwargs['d2f']
+    The key that is looked up must be the key whose presence was tested, and the name it is bound to the
+    like-named attribute (MNewton / Halley read kwargs['df'] for d2f: the user's second derivative was
+    silently replaced by the first)."""
+    m = ix.module(OPT)
+    n = 0
+    for f in m.funcs.values():
+        if not isinstance(f.node, ast.FunctionDef):
+            continue
+        for st in _walk_own(f.node):
+            if not isinstance(st, ast.If):
+                continue
+            t = st.test
+            neg = False
+            while isinstance(t, ast.UnaryOp) and isinstance(t.op, ast.Not):
+                neg = not neg
+                t = t.operand
+            if not (isinstance(t, ast.Compare) and len(t.ops) == 1 and isinstance(t.ops[0], (ast.In, ast.NotIn)) and
+                    isinstance(t.left, ast.Constant) and isinstance(t.left.value, str) and
+                    norm(t.comparators[0]) == 'kwargs'):
+                continue
+            key = t.left.value
+            present = st.orelse if (neg != isinstance(t.ops[0], ast.NotIn)) else st.body
+            for x in ast.walk(ast.Module(body=present, type_ignores=[])):
+                if isinstance(x, ast.Subscript) and norm(x.value) == 'kwargs' and isinstance(x.slice, ast.Constant) \
+                        and isinstance(x.ctx, ast.Load):
+                    n += 1
+                    if x.slice.value == key:
+                        run.ok('R-R4', '%s: kwargs[%r] read under its own presence test' % (f.qualname, key))
+                    else:
+                        stt = x
+                        while not isinstance(stt, ast.stmt):
+                            stt = stt._parent
+                        run.fail(F('R-R4', OPT, f.qualname, stt, 'under the test for the keyword %r the code reads '
+                                   'kwargs[%r]: the caller\'s %s is ignored (and a call that passes only %r raises '
+                                   'KeyError)' % (key, x.slice.value, key, key)))
+    if n < 8:
+        raise AnalysisError('R-R4: only %d guarded keyword lookups found' % n)
+
+
+def check_mnewton_guard(run, ix):
+    """R-R5.  MNewton divides by f'(x): near a multiple root of an expanded polynomial f(x) is rounding noise
+    (non-zero) while the derivative is exactly 0.  The division must be preceded by a test of the derivative
+    that leaves the iteration."""
+    f = ix.func(OPT, 'MNewton.__iter__')
+    divs = [x for x in _walk_own(f.node) if isinstance(x, ast.BinOp) and isinstance(x.op, ast.Div) and
+            isinstance(x.right, ast.Name)]
+    if not divs:
+        raise AnalysisError('MNewton.__iter__: division by the derivative not found')
+    for d in divs:
+        nm = d.right.id
+        st = d
+        while not isinstance(st, ast.stmt):
+            st = st._parent
+        body = st._parent.body
+        guarded = any(isinstance(g, ast.If) and norm(g.test) in ('%s == 0' % nm, 'not %s' % nm) and g.body and
+                      isinstance(g.body[-1], (ast.Break, ast.Return, ast.Raise))
+                      for g in body[:body.index(st)])
+        if guarded:
+            run.ok('R-R5', 'division by %s is preceded by a zero test that leaves the iteration' % nm)
+        else:
+            run.fail(F('R-R5', OPT, f.qualname, st, 'division by %s without a zero test: at a multiple root of an '
+                       'expanded polynomial the derivative is exactly 0 while f is non-zero rounding noise '
+                       '(ZeroDivisionError instead of the root)' % nm))
+
+
+def check_polyroots_order(run, ix):
+    """R-P3.  Conjugate roots computed by the iteration are equal only up to rounding.  A sort whose leading key
+    is the exact |Im| (or Re) puts a second pair with nominally the same |Im| between the two members of the
+    first.  The leading keys of the final ordering must be tolerance ranks (computed with a comparison against
+    tol), exact values may only break ties."""
+    f = ix.func(POLY, 'polyroots')
+    sorts = [x for x in _walk_own(f.node) if isinstance(x, ast.Call) and
+             (norm(x.func) in ('sorted',) or (isinstance(x.func, ast.Attribute) and x.func.attr == 'sort')) and
+             any(k.arg == 'key' for k in x.keywords) and
+             ('roots' in norm(x) )]
+    final = [x for x in sorts if 'roots' in norm([k.value for k in x.keywords if k.arg == 'key'][0]) or
+             norm(x.func) == 'roots.sort']
+    if not final:
+        raise AnalysisError('polyroots: ordering of the roots not found')
+    x = final[-1]
+    key = [k.value for k in x.keywords if k.arg == 'key'][0]
+    comps = key.body.elts if isinstance(key, ast.Lambda) and isinstance(key.body, ast.Tuple) else [getattr(key, 'body', key)]
+    rankers = set()
+    for g in f.nested:
+        if any(isinstance(c, ast.Compare) and 'tol' in norm(c) for c in ast.walk(g.node)):
+            rankers.add(g.name)
+    ranked = {}
+    for st in _walk_own(f.node):
+        if isinstance(st, ast.Assign) and isinstance(st.value, ast.Call) and norm(st.value.func) in rankers:
+            ranked[norm(st.targets[0])] = norm(st.value.args[0]) if st.value.args else ''
+    lead = comps[:2]
+    bad = [c for c in lead if not (isinstance(c, ast.Subscript) and norm(c.value) in ranked)]
+    if bad:
+        run.fail(F('R-P3', POLY, 'polyroots', x, 'the ordering compares `%s` exactly: conjugate roots differ by '
+                   'rounding in |Im| and Re, so another pair with nominally equal |Im| is sorted between them '
+                   '(polyroots([1,0,-16,0,100]) returned 3+1j, -3+1j, -3-1j, 3-1j)' % norm(bad[0])))
+    else:
+        what = [ranked[norm(c.value)] for c in lead]
+        if any('_im' in w for w in what[:1]) and any('_re' in w for w in what[1:2]):
+            run.ok('R-P3', 'ordering by tolerance ranks of |Im| then Re; exact values only break ties')
+        else:
+            run.fail(F('R-P3', POLY, 'polyroots', x, 'the tolerance ranks are not those of |Im| and then Re (%s)' % what))
+
+
+def check_multiplicity(run, ix):
+    """R-M1.  multiplicity() counts vanishing derivatives up to maxsteps.  If the loop runs out without
+    finding a non-vanishing derivative, the last loop index (maxsteps - 1) is not the multiplicity: at least
+    maxsteps derivatives vanish."""
+    f = ix.func(OPT, 'multiplicity')
+    loops = [x for x in _walk_own(f.node) if isinstance(x, ast.For)]
+    if len(loops) != 1:
+        raise AnalysisError('multiplicity: loop not found')
+    lp = loops[0]
+    var = norm(lp.target)
+    rets = [x for x in _walk_own(f.node) if isinstance(x, ast.Return)]
+    if len(rets) == 1 and norm(rets[0].value) == var:
+        if lp.orelse and any(isinstance(s, ast.Assign) and norm(s.targets[0]) == var for s in lp.orelse):
+            run.ok('R-M1', 'exhausted loop sets the count in its else clause')
+        else:
+            run.fail(F('R-M1', OPT, 'multiplicity', rets[0], 'when all %s derivatives vanish the loop variable is '
+                       'returned as it was left by the last iteration (maxsteps - 1): (x-1)**10 has multiplicity 9'
+                       % norm(lp.iter)))
+    else:
+        run.ok('R-M1', 'result is not the bare loop variable')
+
+
 def run(run, ix, tier):
     run.explanation = (
         'Two structural guarantees behind "findroot returns genuine roots": (1) the verification gate - '
@@ -524,6 +668,14 @@ def run(run, ix, tier):
     if n < 3:
         raise AnalysisError('only %d bracketing solvers recognised (Bisection, Illinois, Ridder expected)' % n)
     check_polyroots(run, ix)
+    run.rule('R-R4', floor=8, desc='keyword callbacks read under their own presence test')
+    run.rule('R-R5', floor=1, desc='mnewton: division by the derivative guarded')
+    run.rule('R-P3', floor=1, desc='polyroots ordering by tolerance ranks')
+    run.rule('R-M1', floor=1, desc='multiplicity: exhausted loop')
+    check_keyword_lookups(run, ix)
+    check_mnewton_guard(run, ix)
+    check_polyroots_order(run, ix)
+    check_multiplicity(run, ix)
     # built-in positive example: a negative scaling factor must break the invariant
     src = ("def getm(fz, fb):\n    return (1 - fz/fb) or 0.5\n")
     fd = ast.parse(src).body[0]
